@@ -332,13 +332,19 @@ import (
 
 // The fetcher (concurrent, condition variables) is outside the contracts so far: its result is assumed to be a list of
 // well-formed entries; nothing else is assumed about which entries it returns.
+// noLimit(p): a fetch / load without length limit (nil or negative)
+//@ define noLimit(p *int) = p == nil || deref(p) < 0
 //@ func FetchAll
 //@   trusted
 //@   ensures validSlice(result) && (result == nil || fresh(result))
+//@ @load modifies lastFetch, lastFetchRoots, lastFetchLimit
+//@ @load ensures lastFetch == result && lastFetchRoots == hashes && lastFetchLimit == ite(noLimit(options.Length), 0 - 1, deref(options.Length))
 
 //@ func FetchParallel
 //@   trusted
 //@   ensures validSlice(result) && (result == nil || fresh(result))
+//@ @load modifies lastFetch, lastFetchRoots, lastFetchLimit
+//@ @load ensures lastFetch == result && lastFetchRoots == hashes && lastFetchLimit == ite(noLimit(options.Length), 0 - 1, deref(options.Length))
 
 //@ func Difference
 //@   requires validSlice(a) && validSlice(b)
